@@ -8,6 +8,7 @@
 import EasyMl.Lemmas.Tensor
 import EasyMl.Lemmas.Mappings
 import EasyMl.Lemmas.ShapeIter
+import EasyMl.Lemmas.TensorChecked
 
 namespace EasyMl.C01
 open EasyMl EasyMl.Spec
@@ -433,5 +434,60 @@ theorem shapeIsValid_iff (shape : Shape ν) : shapeIsValid shape = true ↔ Vali
 
 example : dimLengthOf [("a", 2), ("b", 3)] "b" = some 3 ∧ dimLastIndexOf [("a", 2), ("b", 3)] "b" = some 2 ∧
     dimPositionOf [("a", 2), ("b", 3)] "b" = some 1 ∧ dimLengthOf [("a", 2), ("b", 3)] "c" = none := by decide
+
+/-! ### `usize` overflow: the checked arithmetic never overflows on accepted tensors
+
+`B` is `usize::MAX` (any bound works).  The rest of this file models lengths, products and
+offsets as unbounded naturals; these theorems justify that. -/
+
+/-- `checked_elements` returns the true product whenever it returns anything. -/
+theorem checkedElements_sound (B : Nat) (shape : Shape ν) (n : Nat)
+    (h : checkedElements B shape = some n) : n = elements shape := by
+  have := checkedProd_some B 1 _ n h
+  simpa [elements] using this
+
+/-- The constructors' validation as it is in the code (count test
+    `Some(data_len) == checked_elements(shape)`) accepts exactly what the unbounded model accepts,
+    for every data length that fits in a `usize`. -/
+theorem validate_checked_iff (B : Nat) (shape : Shape ν) (dataLen : Nat) (h : dataLen ≤ B) :
+    validateDimensionsChecked B shape dataLen = none ↔
+      (dataLen = elements shape ∧ (shape.map (·.1)).Nodup ∧ ∀ d ∈ shape, 1 ≤ d.2) := by
+  rw [validateDimensionsChecked_none_iff B shape dataLen h, validateDimensions_none_iff]
+
+/-- In particular a shape whose element count does not fit in a `usize` is rejected whatever the
+    data: it can never be accepted with a wrapped-around product (defect 8 of DESIGN §8, fixed by
+    `21ce61d`). -/
+theorem overflowing_shape_rejected (B : Nat) (shape : Shape ν) (dataLen : Nat) (h : dataLen ≤ B)
+    (hbig : B < elements shape) : validateDimensionsChecked B shape dataLen ≠ none := by
+  intro hv
+  have := ((validate_checked_iff B shape dataLen h).1 hv).1
+  omega
+
+/-- On an accepted tensor no multiplication in `compute_strides` overflows, and the strides are
+    the unbounded model's. -/
+theorem strides_no_overflow (B : Nat) (shape : Shape ν) (data : List α) (t : Tensor ν α)
+    (ht : Tensor.tryFrom shape data = some t) (hB : data.length ≤ B) :
+    computeStridesChecked B shape = some t.strides := by
+  obtain ⟨⟨hc, _, hpos⟩, ht'⟩ := (tryFrom_eq_some_iff shape data t).1 ht
+  rw [ht']
+  exact computeStridesChecked_eq B shape hpos (hc ▸ hB)
+
+/-- On an accepted tensor `get_index_direct` never overflows — for **any** index tuple, however
+    large its coordinates (the bound check precedes the multiplication) — and returns the
+    unbounded model's answer. -/
+theorem getIndexDirect_no_overflow (B : Nat) (shape : Shape ν) (data : List α) (t : Tensor ν α)
+    (ht : Tensor.tryFrom shape data = some t) (hB : data.length ≤ B) (idx : List Nat) :
+    getIndexDirectChecked B idx t.strides t.shape = some (t.offset idx) := by
+  obtain ⟨⟨hc, _, _⟩, ht'⟩ := (tryFrom_eq_some_iff shape data t).1 ht
+  rw [ht']
+  exact getIndexDirectCheckedGo_eq B shape idx 0 (by rw [Nat.zero_add, ← hc]; exact hB)
+
+/-- Non-vacuity with an 8-bit `usize`: 16×16 = 256 elements overflows and is rejected even for
+    `data_len = 0` (the wrapped product); 15×17 = 255 is accepted; a prefix overflow is reported
+    even when a later zero length makes the true product 0. -/
+example : validateDimensionsChecked 255 [("a", 16), ("b", 16)] 0 = some .wrongCount := by decide
+example : validateDimensionsChecked 255 [("a", 15), ("b", 17)] 255 = none := by decide
+example : checkedElements 255 [("a", 16), ("b", 16), ("c", 0)] = none := by decide
+example : getIndexDirectChecked 255 [14, 300] (computeStrides [("a", 15), ("b", 17)]) [("a", 15), ("b", 17)] = some none := by decide
 
 end EasyMl.C01
